@@ -6,19 +6,38 @@ CHECK = {
     "rule": "one line per compiled-in parameter set (constants, base powers, check_params, well-formed bounds, "
             "mul/norm bounds), per argument tuple of get_identity_auxiliary_bounds (random, near-gate, u_max "
             "thresholds), per random evaluation of the real mul/norm gate polynomials, per assigned mul/norm row, "
-            "per field-chip program (5 emulated fields over the BLS12-381 scalar field) and per BigUint program "
-            "(widths 1..2048); distinctness by hash of the request line",
+            "per field-chip program (5 emulated fields over the BLS12-381 scalar field): one `fp` line (limb values, "
+            "tracked bounds, verdict) and one `fpt` line (foreign-level trace: every Foreign norm / Foreign "
+            "multiplication region with the source of every copied-in limb and the bit length of every range check, "
+            "every group of freshly assigned range-checked limbs, equality / public-input / decomposition events), "
+            "and per BigUint program (widths 1..2048: `big` line, and `bigrc` line = bit length of the range check of "
+            "every limb of every assign_biguint); distinctness by hash of the request line",
     "explanation": "Lean theorems over an executable model of the foreign-field emulation (auxiliary-bounds function, "
                    "CRT lift, mul/norm gate identities and witness generation, limb representation and bound "
                    "bookkeeping, every FieldChip operation on limb vectors) and of the BigUint limb arithmetic. The "
                    "model is tied to the code by parameter sets regenerated from params.rs (side conditions re-proved "
                    "by the kernel), by evaluating the REAL gate polynomials at random points against the model's "
                    "identities, and by running both on the same programs (limb values, tracked bounds, normalisation "
-                   "decisions, rows of the gates, number of range checks, verdict). The property's oracle is checked "
+                   "decisions, rows of the gates, verdict, and the foreign-level trace). The trace is READ BACK from the "
+                   "real synthesis: the programs run on the real NativeGadget/FieldChip with the real decomposition "
+                   "chip behind a transparent logging wrapper (CoreDecompositionInstructions is a public trait), so "
+                   "every assign_less_than_pow2 / assert_less_than_pow2 / decompose_fixed_limb_size call is seen with "
+                   "the bit length really enforced and the cell concerned (behind the native gadget's cache of "
+                   "constrained cells); a recording Assignment backend re-derives region placement and resolves "
+                   "every copy constraint, so each limb copied into a mul/norm region is named by its creation site "
+                   "(assign group, norm output, fixed cell). The Lean emitter (normEvent / mulEvent / freshLimbs in "
+                   "Model/C05/Chip.lean) must print the same events; the end-to-end theorems "
+                   "(norm/mul/normalize/add/sub/assert_equal/is_equal _sound_end_to_end) take exactly these emitted "
+                   "bit lengths as hypotheses. A changed bound (u_max*2, u_max-1, one bit more or less on a limb), a "
+                   "dropped range check, a skipped normalisation or a mis-wired operand changes an fpt line. Tight by "
+                   "design: reordering regions inside one operation or replacing a native instruction by another "
+                   "that creates cells differently does NOT fire (names are by creation site, `o` for native cells); "
+                   "adding an extra normalisation does. The property's oracle is checked "
                    "directly through the real MockProver: honest witness accepted with the num-bigint result exposed "
                    "as public input, false assertions / wrong or non-canonical public inputs rejected, every tampered "
                    "cell of every mul/norm region rejected",
-    "technique": "proof + translation of parameter sets + structural/value correspondence + tamper sweep (H2)",
+    "technique": "proof + translation of parameter sets + structural/value correspondence (incl. range-check bit "
+                 "lengths and copy wiring read back from the real synthesis) + tamper sweep (H2)",
     "trusted_base": [
         "native gadget instructions used by the foreign chip and the BigUint gadget (range checks, linear "
         "combinations, is_equal, bit decompositions: property C04) are assumed at their interface",
@@ -29,10 +48,17 @@ CHECK = {
                   "(all parameter sets on which configure succeeds, all limb/auxiliary assignments), with the model "
                   "checked against the real code on every run",
     "level_note": "Trusted: Lean kernel, the correspondence harness and driver; the native gadget (C04) at its "
-                  "interface. Soundness of a whole operation = gate soundness theorem (all assignments) + range "
-                  "checks present (counted per region by the correspondence, bounds not read back) + copy constraints "
-                  "(tamper sweep); multi-cell forgeries that re-derive consistent range-check witnesses are covered "
-                  "by the theorems only",
+                  "interface (assert_less_than_pow2(x, k) enforces x < 2^k; linear combinations and equality hold "
+                  "in the native field). Soundness of mul / div / normalize / assert_equal / is_equal / is_zero is "
+                  "now a theorem from the gate identities, the range checks with the bit lengths AS EMITTED (read "
+                  "back from the real trace on every run) and the tracked limb bounds, for every assignment; lazy "
+                  "add / sub: interval + value theorems (native cells named `o`: their wiring inside native regions "
+                  "is C04's). BigUint: add / mul / sub (underflow => unsatisfiable) / div_rem end-to-end theorems over "
+                  "the carry chain of the model; the range checks of assign_bounded are read back for every "
+                  "assign_biguint (`bigrc` lines), those of normalize's carries and of internal assign_bounded calls "
+                  "only through limb vectors, size bounds and verdicts; mod_exp: correspondence + reference values "
+                  "only (no induction theorem yet). The bit/byte conversions' native decompositions are tied (D "
+                  "events) but have no end-to-end theorem",
     "assumptions": [
         "assert_lower_than_fixed / assign_lower_than_fixed enforce their bound (C04)",
         "each emulated modulus is prime where the model inverts (division, inversion)",
